@@ -181,6 +181,38 @@ pub fn int_leaves(v: &Value) -> Vec<(String, Integer)> {
     out
 }
 
+/// json-pointer paths of every composite node below the variant wrapper (objects that are not integer leaves,
+/// arrays and their composite elements): the units a whole sub-proof can be exchanged at
+pub fn composite_nodes(v: &Value) -> Vec<String> {
+    let mut out = vec![];
+    fn walk(v: &Value, path: String, depth: usize, out: &mut Vec<String>) {
+        if int_of(v).is_some() && (v.is_object() || v.is_string()) {
+            return;
+        }
+        match v {
+            Value::Object(m) => {
+                if depth >= 2 {
+                    out.push(path.clone());
+                }
+                for (k, x) in m {
+                    walk(x, format!("{}/{}", path, k), depth + 1, out);
+                }
+            }
+            Value::Array(a) => {
+                if depth >= 2 && !a.is_empty() {
+                    out.push(path.clone());
+                }
+                for (k, x) in a.iter().enumerate() {
+                    walk(x, format!("{}/{}", path, k), depth + 1, out);
+                }
+            }
+            _ => {}
+        }
+    }
+    walk(v, String::new(), 0, &mut out);
+    out
+}
+
 /// replace the integer leaf at `path`
 pub fn set_leaf(v: &mut Value, path: &str, i: &Integer) -> bool {
     match v.pointer_mut(path) {
@@ -210,13 +242,42 @@ pub fn short(i: &Integer) -> String {
     }
 }
 
+/// Kinds of single-field perturbation: +1, -1, := 0, := the next leaf, one high bit flipped, + 2^k above the
+/// low 128 / 256 bits (a value that is only compared modulo a power of two stays "equal").
+/// (A change of sign is deliberately not among them: see DESIGN.md 11.3, sign ambiguity.)
+pub const EDIT_KINDS: u8 = 6;
+pub const EDIT_TAGS: [&str; 6] = ["+1", "-1", ":=0", ":=sibling", "high-bit-flipped", "+2^k(k>=128)"];
+
+pub fn edit_leaf(leaves: &[(String, Integer)], li: usize, e: u8) -> Integer {
+    let val = &leaves[li].1;
+    let bits = val.significant_bits();
+    match e {
+        0 => (val + 1u32).complete(),
+        1 => (val - 1u32).complete(),
+        2 => Integer::new(),
+        3 => leaves[(li + 1) % leaves.len()].1.clone(),
+        4 => {
+            // a bit in the upper half of the value (position 128 or above when the value is that long)
+            let pos = if bits > 129 { 128 + (li as u32 * 37 + 5) % (bits - 128) } else { bits / 2 + (li as u32) % (bits / 2 + 1) };
+            let mut v = val.clone();
+            v.toggle_bit(pos);
+            v
+        }
+        _ => {
+            let k = [128u32, 256, 300, 160][li % 4];
+            let sh: Integer = Integer::from(1) << k;
+            if val.cmp0() == std::cmp::Ordering::Less { (val - sh).into() } else { (val + sh).into() }
+        }
+    }
+}
+
 /// Selection of leaf perturbations under a budget, balancing over (generic path, edit kind) across
 /// the whole run, so that every kind of field is perturbed even when each proof gets only a sample.
 pub fn pick_edits(leaves: &[(String, Integer)], budget: usize, st: &mut u64) -> Vec<(usize, u8)> {
     use std::collections::HashMap;
     use std::sync::Mutex;
     static COVER: Mutex<Option<HashMap<(String, u8), u32>>> = Mutex::new(None);
-    let mut all: Vec<(usize, u8)> = (0..leaves.len()).flat_map(|li| (0..4u8).map(move |e| (li, e))).collect();
+    let mut all: Vec<(usize, u8)> = (0..leaves.len()).flat_map(|li| (0..EDIT_KINDS).map(move |e| (li, e))).collect();
     if budget == 0 || budget >= all.len() {
         return all;
     }
